@@ -20,8 +20,15 @@ def design(tier, seed):
 
     r = tlc.run_model('GateLemmas', 'GateLemmas.cfg', workers=4, tag='C15-lemmas', xmx='2g')
     tlc.cleanup(r['workdir'])
-    return {'states': r['distinct'], 'transitions': r['generated'],
-            'runs': [f'GateLemmas (KleeneSound/Monotone/Total over all three-valued argument tuples, arity<=4): {r["distinct"]} states']}
+    cfg = 'StackEval_quick.cfg' if tier == 'quick' else 'StackEval.cfg'
+    r2 = tlc.run_model('StackEval', cfg, workers=16, tag='C15-stackeval', xmx='10g', timeout=3000)
+    tlc.cleanup(r2['workdir'])
+    return {
+        'states': r['distinct'] + r2['distinct'],
+        'transitions': r['generated'] + r2['generated'],
+        'runs': [f'GateLemmas (row-set, three-valued, rewrite and code renderings denote GateFn; Kleene soundness / monotonicity / totality; all argument tuples, arity <= 4): {r["distinct"]} states, {r["wall_s"]:.1f}s',
+                 f'StackEval.tla/{cfg} (code-shaped stack evaluator and full pass refine the denotational three-valued semantics on every circuit of the universe x every partial assignment x output requests): {r2["distinct"]} states, {r2["wall_s"]:.1f}s'],
+    }
 
 
 def sources(tier, seed, ctx):
